@@ -2,8 +2,11 @@
 package par
 
 import (
+	"bufio"
+	"bytes"
 	"encoding/json"
 	"fmt"
+	"io"
 	"os"
 	"os/exec"
 	"path/filepath"
@@ -312,3 +315,94 @@ func tailOf(s string, n int) string {
 
 // SetHorizon changes the watchdog's per-case wall-clock horizon (default 60 s).
 func SetHorizon(d time.Duration) { caseMu.Lock(); horizon = d; caseMu.Unlock() }
+
+// ---------------------------------------------------------------- persistent worker pool
+
+// Pool runs n copies of this binary in "-shard serve" mode; each answers JSON lines on
+// stdin with one JSON line on stdout. A worker that dies is restarted and the request
+// that killed it is answered with Died=true.
+type Pool struct {
+	n     int
+	reqs  chan poolReq
+	wg    sync.WaitGroup
+	extra []string
+}
+
+type poolReq struct {
+	in  []byte
+	out chan PoolResp
+}
+
+type PoolResp struct {
+	Line []byte
+	Died bool
+	Log  string
+}
+
+func NewPool(n int, extraArgs ...string) *Pool {
+	p := &Pool{n: n, reqs: make(chan poolReq), extra: extraArgs}
+	for i := 0; i < n; i++ {
+		p.wg.Add(1)
+		go p.worker()
+	}
+	return p
+}
+
+func (p *Pool) worker() {
+	defer p.wg.Done()
+	self, _ := os.Executable()
+	var cmd *exec.Cmd
+	var stdin io.WriteCloser
+	var stdout *bufio.Reader
+	var stderr *bytes.Buffer
+	start := func() {
+		cmd = exec.Command(self, append([]string{"-shard", "serve/1"}, p.extra...)...)
+		cmd.Env = append(os.Environ(), "GOMAXPROCS=2")
+		stdin, _ = cmd.StdinPipe()
+		so, _ := cmd.StdoutPipe()
+		stdout = bufio.NewReaderSize(so, 1<<20)
+		stderr = &bytes.Buffer{}
+		cmd.Stderr = stderr
+		if err := cmd.Start(); err != nil {
+			ev.Fatal("cannot start pool worker: %v", err)
+		}
+	}
+	start()
+	for rq := range p.reqs {
+		stdin.Write(append(rq.in, '\n'))
+		line, err := stdout.ReadBytes('\n')
+		if err != nil {
+			cmd.Wait()
+			rq.out <- PoolResp{Died: true, Log: tailOf(stderr.String(), 1500)}
+			start()
+			continue
+		}
+		rq.out <- PoolResp{Line: line}
+	}
+	stdin.Close()
+	cmd.Wait()
+}
+
+// Call sends one request and waits for its answer.
+func (p *Pool) Call(in []byte) PoolResp {
+	out := make(chan PoolResp, 1)
+	p.reqs <- poolReq{in, out}
+	return <-out
+}
+
+func (p *Pool) Close() { close(p.reqs); p.wg.Wait() }
+
+// Serve is the worker side: handle is called for every request line.
+func Serve(handle func(in []byte) []byte) {
+	rd := bufio.NewReaderSize(os.Stdin, 1<<20)
+	wr := bufio.NewWriter(os.Stdout)
+	for {
+		line, err := rd.ReadBytes('\n')
+		if err != nil {
+			return
+		}
+		out := handle(bytes.TrimSpace(line))
+		wr.Write(append(bytes.ReplaceAll(out, []byte("\n"), []byte(" ")), '\n'))
+		wr.Flush()
+	}
+}
